@@ -80,12 +80,33 @@ class BCtx:
             self.notes.append(text)
 
 
+def anchored_modules(prop):
+    """python modules of the files the property is anchored in (properties.jsonl), plus the modules named by the contract file (EXTRA_GUARDED)"""
+    import json
+    here = os.path.dirname(os.path.dirname(os.path.abspath(__file__)))
+    mods = []
+    try:
+        for line in open(os.path.join(here, 'properties.jsonl')):
+            d = json.loads(line)
+            if d['id'] == prop:
+                for f in d['anchors'].get('files', []):
+                    if f.startswith('src/') and f.endswith('.py'):
+                        mods.append(f[4:-3].replace('/', '.'))
+    except Exception:   # noqa
+        pass
+    return mods
+
+
 def run_bounded(prop, name, tier, seed, shard, nshards):
     g = BREGISTRY[prop][name]
     ctx = BCtx(tier, seed, shard, nshards)
     t0 = time.time()
     out = {'prop': prop, 'bounded': name, 'shard': shard, 'status': 'ok'}
     try:
+        if os.environ.get('PV_NO_GUARDS') != '1':
+            from . import guards
+            n_guarded = guards.install(ctx, prop, anchored_modules(prop))
+            ctx.note(f"frame guards on {n_guarded} public callables of the anchored modules (arguments and accessor payloads compared with snapshots around every outermost call)")
         g.fn(ctx)
     except Exception as e:   # noqa
         tb = traceback.extract_tb(e.__traceback__)
